@@ -18,6 +18,10 @@ type fPayload struct {
 func symEvent() (*Event, *fPayload, [2]string, [2]string, int) {
 	p := &fPayload{a: nondetString(), b: nondetInt(), X: verifMaybeUnencodable()}
 	e := &Event{Type: EventType(nondetString()), CreatedAt: time.Unix(0, int64(nondetInt())), Payload: p}
+	if nondetBool() {
+		// no payload at all: the document still has a payload member (null)
+		e.Payload = nil
+	}
 	var ks, vs [2]string
 	n := 0
 	if nondetBool() {
@@ -61,7 +65,7 @@ func checkFormatted(e *Event, ks, vs [2]string, n int, jsonSet bool, want string
 
 func H_C14_JSONFormatter() {
 	e, p, ks, vs, n := symEvent()
-	a0, b0, t0, c0 := p.a, p.b, e.Type, e.CreatedAt
+	a0, b0, t0, c0, pl0 := p.a, p.b, e.Type, e.CreatedAt, e.Payload
 	want, encodable := refJSON(e)
 	var out *Event
 	var err error
@@ -88,7 +92,7 @@ func H_C14_JSONFormatter() {
 		}
 		out, err = ff.Process(context.Background(), e)
 	}
-	verifAssert(p.a == a0 && p.b == b0 && e.Type == t0 && e.CreatedAt.Equal(c0) && verifSame(e.Payload, any(p)), "C14.event-and-payload-untouched")
+	verifAssert(p.a == a0 && p.b == b0 && e.Type == t0 && e.CreatedAt.Equal(c0) && verifSame(e.Payload, pl0), "C14.event-and-payload-untouched")
 	if !encodable {
 		verifAssert(err != nil && out == nil, "C14.unencodable-payload-is-error")
 		checkFormatted(e, ks, vs, n, false, "", "C14.unencodable")
